@@ -13,8 +13,9 @@ Binding B: random dyadic priors and u pairs through the real sample(); TLC re-ev
        quantile from the uninterpreted table) + canary.
 
 Strengthening (far tails, prior space x parameter mode):
- * tail ladder of the spec (Priors.tla: TK, TailPts, TailSample, TZAssumption): u = 2^-k down to the smallest
-   positive double and u = 1 - 2^-k up to the largest double below one, every point exactly representable.
+ * tail ladder of the spec (Priors.tla: TK, TD, TailPts, TailSample, TZAssumption): u = 2^-k down to the smallest
+   positive double and u = 1 - 2^-k up to the largest double below one (exactly representable), and the decimal
+   points 10^-k, 1 - 10^-k (full mantissa: 2u-1 and 1-u are exact on dyadic points only).
    Exported with every vector (binding A: finite, table value, inverse-CDF identity Phi((x-mean)/sd) = u relative
    to min(u, 1-u) through math.erfc, strictly monotone along ladder + grid, mirror symmetry, 10**x handed to the
    model) and sampled as "tail" trace events (binding B).
